@@ -58,7 +58,8 @@ structure EnvA {α : Type} (o : ElemsOps α) (cfg : MCfg) (k : MKey) (v : Elem)
     env.element_Remove el c (u64 lvl) hk (.key k) = mel_rERemove c (el.remove o cfg lvl k c)
   newElem : ∀ c, env.newSingleElement c cfg.addr (.key k) (.val v) =
     (mel_cE (newSingleElement cfg.T cfg.addr k v c).1, none, (newSingleElement cfg.T cfg.addr k v c).2)
-  inj : ∀ x, env.element_ofSingleElement (mel_cE x) = .single x
+  /-- the injection `*singleElement -> element` (for sizes that are `uint32` values: `mel_cE` stores `u32 x.size`) -/
+  inj : ∀ x, x.size < 2^32 → env.element_ofSingleElement (mel_cE x) = .single x
   asKNF : ∀ err, env.errors_As_KeyNotFoundError err = decide (err = .keyNotFound)
   eHashLevel : env.NewHashLevelErrorf = some .hashLevel
   eKeyNotFound : env.NewKeyNotFoundError = some .keyNotFound
